@@ -15,10 +15,10 @@ TB_RC = [
 PROPS = {}
 
 
-def run_part(part, seed=0, tier='quick'):
+def run_part(part, seed=0, tier='quick', threads=16):
     kind = part[0]
     if kind == 'verus':
-        return parts.verus_part(part[1])
+        return parts.verus_part(part[1], threads=threads)
     if kind == 'kani':
         from . import kani
         return kani.kani_part(part[1], tier=tier)
